@@ -7,6 +7,7 @@ from mirsym import models_typst as T
 from mirsym import models_doc as D
 from mirsym.models_std import STD, Str, sym_str, str_eq
 from mirsym.models_typst import Node, Ast
+from mirsym.session import hexs, unhexs
 from . import kern, pp
 from .common import *
 
@@ -61,6 +62,25 @@ def run(S):
             S.violation('C10:' + lab, 'leaf emission changes token text %s' % show(t), dict(api=api, model=info))
         else:
             S.inconclusive.append('C10:%s: model %r did not reproduce through format_content' % (lab, info))
+    # ---- (1b) dispatch: convert_expr on a literal / leaf expression of every such kind emits the token text -------------
+    fl = explore_literal_dispatch(S, min(N, 3))
+    gl = {}
+    for lab, info in fl:
+        gl.setdefault((lab, info['kind']), []).append(info)
+    for (lab, kind), infos in gl.items():
+        w = confirm_literal_kind(S, kind)
+        if w:
+            S.violation('C10:%s:%s' % (lab, kind), 'C10:%s: %s' % (lab, w['what']), dict(api=w, model=infos[0]))
+        else:
+            S.inconclusive.append('C10:%s: the solver model for a %s token (%r) has no reproduction in the native token corpus' % (lab, kind, infos[0]))
+    if not fl:
+        for kind in LITERAL_TOKENS:
+            w = confirm_literal_kind(S, kind)
+            if w:
+                S.inconclusive.append('C10: the native token corpus shows a deviation the solver-decided units do not explain: %s' % w['what'])
+                break
+        else:
+            S.validation['literal_token_corpus'] = 'clean (%d tokens)' % sum(len(v) for v in LITERAL_TOKENS.values())
     # ---- (2) post-processing vs literal bytes ---------------------------------------------------------------
     found = kern.strip_literal(S, N)
     groups = {}
@@ -111,6 +131,80 @@ def run(S):
         'one character of context on each side of the literal suffices because strip_trailing_whitespace is line-local (decided in C11/C03 obligations)',
     ]
     return S.finish(level='other', explanation=EXPLANATION, trusted=['mirsym encoder', 'std string contracts', 'Doc algebra contracts'])
+
+
+# literal / leaf expression kinds: fixed token text where the lexer fixes it (keywords), otherwise arbitrary text
+LITERAL_KINDS = {'None': 'none', 'Auto': 'auto', 'Bool': None, 'Int': None, 'Float': None, 'Numeric': None, 'Str': None, 'Ident': None,
+                 'MathIdent': None, 'Label': None, 'Shorthand': None, 'Escape': None, 'SmartQuote': None, 'Link': None,
+                 'MathText': None, 'MathShorthand': None, 'MathAlignPoint': '&'}
+# native confirmation corpus: tokens of each kind in a context where they are lexed as that kind (template with %s)
+LITERAL_TOKENS = {
+    'Int': ('#let x = %s\n', ['0', '7', '007', '0xff', '0XFF', '0b1010', '0o17', '123456789012345678', '00']),
+    'Float': ('#let x = %s\n', ['1.0', '1.', '.5', '1e3', '1E3', '1.50', '01.5', '1e+3', '1.0e-3', '0.10']),
+    'Numeric': ('#let x = %s\n', ['1pt', '1.50em', '01pt', '1e2pt', '10%%', '0.50fr', '90deg', '1.0cm']),
+    'Str': ('#let x = %s\n', ['""', '"a"', '"\\u{41}"', '"a\\nb"', '"  "', '"\\""', '"é"', '"\\t"']),
+    'Bool': ('#let x = %s\n', ['true', 'false']),
+    'None': ('#let x = %s\n', ['none']),
+    'Auto': ('#let x = %s\n', ['auto']),
+    'Ident': ('#let x = %s\n', ['a', 'a-b', 'a_b', 'é', 'x1']),
+    'Label': ('a %s\n', ['<a>', '<a-b.c>', '<a:b>']),
+    'Escape': ('a %s b\n', ['\\#', '\\u{41}', '\\u{1F600}', '\\$']),
+    'Shorthand': ('a %s b\n', ['--', '---', '...', '~']),
+    'SmartQuote': ('a %sb\n', ['"', "'"]),
+    'Link': ('a %s b\n', ['https://a.b/c?d=e#f', 'http://x.y']),
+    'MathIdent': ('$ %s $\n', ['alpha', 'pi']),
+    'MathText': ('$ %s $\n', ['a', '1', '1.50', '007']),
+    'MathShorthand': ('$ a %s b $\n', ['->', '!=', '=>', '<=']),
+    'MathAlignPoint': ('$ a %s b $\n', ['&']),
+}
+
+
+def explore_literal_dispatch(S, N):
+    kt = T.KT
+    core = S.core
+    f_expr = S.find_fn(core, 'PrettyPrinter::convert_expr')
+    found = []
+    for kind, fixed in LITERAL_KINDS.items():
+        for n in ([len(fixed)] if fixed is not None else range(1, N + 1)):
+            def body(ctx, kind=kind, fixed=fixed, n=n):
+                m = S.machine(core, STD, ctx)
+                t = Str.lit(fixed) if fixed is not None else sym_str(ctx, 't', n)
+                leaf = Node(kt.k(kind), text=t)
+                pr, cfg = pp.printer(m)
+                c0 = pp.context()
+                ctx.assume(z3.ULT(c0.get('mode').disc, 4))
+                describe = lambda mdl: dict(kind=kind, text=t.concrete(mdl), mode=model_int(mdl, c0.get('mode').disc))
+                try:
+                    d = m.call_fn(f_expr, [pr, c0, T.make_cast(m, leaf, 'Expr')])
+                except Panic as p:
+                    S.absorb(m)
+                    ctx.must_hold(False, 'literal-conversion-panics', lambda mdl: dict(describe(mdl), panic=p.msg))
+                    return
+                S.absorb(m)
+                texts = [a for a in D.atoms(d, False) if a[0] != 'nil']
+                ok = len(texts) == 1 and texts[0][0] == 't' and isinstance(texts[0][1], Str) and len(texts[0][1]) == n
+                ctx.must_hold(ok and str_eq(texts[0][1], t), 'literal-token-not-emitted-verbatim', describe)
+            ob, ex = S.explore('literal.dispatch[%s,n=%d]' % (kind, n), 'convert_expr on a %s token of %d code points emits exactly the token text, in every mode' % (kind, n),
+                               body, bounds=dict(kind=kind, code_points=n))
+            for lab, mdl, info in ex.violations:
+                found.append((lab, info))
+    return found
+
+
+def confirm_literal_kind(S, kind):
+    tpl, toks = LITERAL_TOKENS.get(kind, ('#let x = %s\n', []))
+    for tok in toks:
+        src = tpl % tok
+        if S.driver.call('erroneous', hexs(src))[1] == '1':
+            continue
+        for w in (80, 0):
+            r = S.driver.call('format', hexs(src), w, 2, 0)
+            if r[0] in ('panic', 'abort'):
+                return dict(api='Typstyle::format_content', source=src, width=w, what='format_content panics on %s' % show(src))
+            if r[0] == 'ok' and tok not in unhexs(r[1]):
+                return dict(api='Typstyle::format_content', source=src, width=w, output=unhexs(r[1]),
+                            what='the %s token %s is not reproduced: %s -> %s' % (kind, show(tok), show(src), show(unhexs(r[1]))))
+    return None
 
 
 def explore_raw(S):
